@@ -13,6 +13,7 @@ McBlocks == { <<>>,
               TplSeq(<<"attesterr", "status", "statusbad">>),
               << <<"UpsertRelayerFee", "FeeSetting.Fees[0].Multiplicator", "negative">> >>,
               << Tpl("estimate"), <<"AddEvidence", "Proof", "empty">> >> }
-McVersions == {[v |-> <<5, 1, 6>>, pre |-> ""], [v |-> <<5, 1, 10>>, pre |-> ""], [v |-> <<5, 1, 6>>, pre |-> "-rc1"]}
-McConstr == height <= MaxHeight /\ restarts <= 1 /\ nqueries <= 1
+McVersions == {[v |-> <<5, 1, 6>>, pre |-> ""], [v |-> <<5, 1, 10>>, pre |-> ""]}
+\* the gate is only closed / left open from the first two heights on (its effect does not depend on where it happens)
+McConstr == height <= MaxHeight /\ restarts <= 1 /\ nqueries <= 1 /\ (gate.on => height <= Base + 2)
 =============================================================================
